@@ -168,7 +168,7 @@ def run_proof(built, proof, workdir, extra_defs=(), trace=False):
     if proof.get('enforce'):
         gi += ['--enforce-contract', proof['enforce']]
     ctext = open(built['cfile']).read()
-    used = [x for x in getattr(u, 'ALWAYS_REPLACE', []) if x not in proof.get('no_replace', []) and ctext.count(x + '(') >= (2 if (x + '(') in getattr(u, 'PRELUDE', '') + getattr(u, 'PRELUDE_AFTER_RECORDS', '') else 1)]
+    used = [x for x in ([] if proof.get('exec') else getattr(u, 'ALWAYS_REPLACE', [])) if x not in proof.get('no_replace', []) and ctext.count(x + '(') >= (2 if (x + '(') in getattr(u, 'PRELUDE', '') + getattr(u, 'PRELUDE_AFTER_RECORDS', '') else 1)]
     for r in list(proof.get('replace', [])) + used:
         gi += ['--replace-call-with-contract', r]
     if mode == 'contracts':
